@@ -216,6 +216,10 @@ def clientAt (d : D) (t : Tid) (hook : Nat) : Except String D := do
   | 10 => advClient d t (· == 16) 8 "vpWaitDone"
   | 11 => advClient d t (· == 18) 8 "vpGetBeforeStore"
   | 12 => advClient d t (· == 20) 8 "vpGetAfterStore"
+  | 24 => advClient d t (· == 23) 8 "vpTtlAfterGet"
+  | 25 => advClient d t (· == 24) 8 "vpTtlAfterExp"
+  | 26 => advClient d t (· == 25) 8 "vpTtlAfterNow"
+  | 27 => advClient d t (· == 2) 8 "vpSetAfterClock"
   | 23 => if isTtl then advClient d t (· == 22) 8 "vpLockedGetRead" else advClient d t (· == 19) 8 "vpLockedGetRead"
   | 13 =>
     let d1 ← advClient d t (fun x => x == 29 || x == 30) 8 "vpClearStopSent"
